@@ -50,6 +50,7 @@ type subProcess struct {
 	flowWaitGroup          *sync.WaitGroup
 	active                 atomic.Int32
 	complete               sync.RWMutex
+	activation             sync.Mutex
 	idGenerator            id.IGenerator
 	eventDefinitionBuilder event.IDefinitionInstanceBuilder
 	eventConsumersLock     sync.RWMutex
@@ -591,6 +592,12 @@ func (sp *subProcess) run(ctx context.Context, out tracing.ITracer, sender traci
 					defer starting.Done()
 					sp.active.Add(1)
 					defer sp.active.Add(-1)
+
+					// the inner nodes, their tracer and wait group exist once per node: a token that arrives
+					// while another one is inside waits for its turn, otherwise it relays the running
+					// activation's traces a second time and leaves with that activation's completion
+					sp.activation.Lock()
+					defer sp.activation.Unlock()
 
 					// subscribe before the inner flows start, otherwise their first traces
 					// (including task requests) are sent before the relay listens and are lost
